@@ -160,15 +160,16 @@ pub fn rich_objects() -> Vec<(u64, Val)> {
     o.push((
         36,
         Val::stream(
-            vec![("Type", Val::name("Pattern")), ("PatternType", Val::Int(1)), ("PaintType", Val::Int(1)), ("TilingType", Val::Int(1)), ("BBox", rect(0, 0, 4, 4)), ("XStep", Val::Int(4)), ("YStep", Val::Int(4)), ("Resources", Val::dict(vec![]))],
+            vec![("Type", Val::name("Pattern")), ("PatternType", Val::Int(1)), ("PaintType", Val::Int(1)), ("TilingType", Val::Int(1)), ("BBox", rect(0, 0, 4, 4)), ("XStep", Val::Int(4)), ("YStep", Val::Int(4)), ("Resources", Val::r(38))],
             b"0 0 2 2 re f".to_vec(),
         ),
     ));
+    o.push((38, Val::dict(vec![("ProcSet", Val::Array(vec![Val::name("PDF")]))])));
     o.push((37, Val::dict(vec![("Title", Val::str("the title")), ("Author", Val::str("harness")), ("CreationDate", Val::str("D:20240101000000Z"))])));
     o
 }
 
-pub const RICH_SIZE: u64 = 38;
+pub const RICH_SIZE: u64 = 39;
 
 /// Assemble the rich document. `prefix` is junk before the header.
 pub fn rich_doc(prefix: &[u8], opts: DocOpts) -> Vec<u8> {
@@ -242,4 +243,52 @@ pub fn small_doc(prefix: &[u8]) -> Vec<u8> {
     fb.add(5, 0, &Val::dict(vec![("Type", Val::name("Font")), ("Subtype", Val::name("Type1")), ("BaseFont", Val::name("Courier"))]));
     fb.finish_table(&[("Root", Val::r(1))], Split::Runs);
     fb.bytes()
+}
+
+/// The rich document extended with structures that hostile files like to abuse: indirect /Length, functions of
+/// every type, Separation / DeviceN / nested Indexed / ICC colour spaces, a CCITT image, soft mask, embedded files
+/// name tree, number tree with kids, form field hierarchy.
+pub fn hostile_objects() -> Vec<(u64, Val)> {
+    let mut o = rich_objects();
+    let set = |o: &mut Vec<(u64, Val)>, nr: u64, key: &str, v: Val| {
+        let e = o.iter_mut().find(|(n, _)| *n == nr).unwrap();
+        e.1.set(key, v);
+    };
+    set(&mut o, 1, "PageLabels", Val::r(72));
+    set(&mut o, 20, "EmbeddedFiles", Val::r(69));
+    // resources
+    let res = o.iter_mut().find(|(n, _)| *n == 5).unwrap();
+    let mut cs = res.1.get("ColorSpace").unwrap().clone();
+    cs.set("CS3", Val::Array(vec![Val::name("Separation"), Val::name("Spot"), Val::name("DeviceRGB"), Val::r(62)]));
+    cs.set("CS4", Val::Array(vec![Val::name("DeviceN"), Val::Array(vec![Val::name("A"), Val::name("B")]), Val::name("DeviceCMYK"), Val::r(65)]));
+    cs.set("CS5", Val::Array(vec![Val::name("Indexed"), Val::Array(vec![Val::name("Indexed"), Val::name("DeviceRGB"), Val::Int(1), Val::Str(vec![0, 0, 0, 9, 9, 9])]), Val::Int(1), Val::Str(vec![0, 1])]));
+    cs.set("CS6", Val::Array(vec![Val::name("Separation"), Val::name("Two"), Val::Array(vec![Val::name("ICCBased"), Val::r(35)]), Val::r(64)]));
+    cs.set("CS7", Val::Array(vec![Val::name("Separation"), Val::name("Smp"), Val::name("DeviceGray"), Val::r(63)]));
+    res.1.set("ColorSpace", cs);
+    let mut xo = res.1.get("XObject").unwrap().clone();
+    xo.set("Im3", Val::r(67));
+    res.1.set("XObject", xo);
+    set(&mut o, 16, "SMask", Val::r(75));
+    set(&mut o, 32, "Kids", Val::Array(vec![Val::r(74)]));
+    o.push((60, Val::stream(vec![("Length", Val::r(61))], b"indirect length".to_vec())));
+    o.push((61, Val::Int(15)));
+    o.push((62, Val::stream(vec![("FunctionType", Val::Int(4)), ("Domain", Val::ints(&[0, 1])), ("Range", Val::ints(&[0, 1, 0, 1, 0, 1]))], b"{ dup dup 0.5 mul exch }".to_vec())));
+    o.push((63, Val::stream(vec![("FunctionType", Val::Int(0)), ("Domain", Val::ints(&[0, 1])), ("Range", Val::ints(&[0, 1])), ("Size", Val::ints(&[2])), ("BitsPerSample", Val::Int(8))], vec![0, 255])));
+    o.push((64, Val::dict(vec![("FunctionType", Val::Int(2)), ("Domain", Val::ints(&[0, 1])), ("C0", Val::ints(&[0, 0, 0])), ("C1", Val::Array(vec![Val::Int(1), Val::real("0.5"), Val::Int(0)])), ("N", Val::Int(1))])));
+    o.push((65, Val::stream(vec![("FunctionType", Val::Int(4)), ("Domain", Val::ints(&[0, 1, 0, 1])), ("Range", Val::ints(&[0, 1, 0, 1, 0, 1, 0, 1]))], b"{ 1 index 1 index add 1 index }".to_vec())));
+    o.push((
+        67,
+        Val::stream(
+            vec![("Type", Val::name("XObject")), ("Subtype", Val::name("Image")), ("Width", Val::Int(8)), ("Height", Val::Int(1)), ("ColorSpace", Val::name("DeviceGray")), ("BitsPerComponent", Val::Int(1)), ("Filter", Val::name("CCITTFaxDecode")), ("DecodeParms", Val::dict(vec![("K", Val::Int(-1)), ("Columns", Val::Int(8)), ("Rows", Val::Int(1))]))],
+            vec![0x26, 0xa0, 0x08, 0x00, 0x80],
+        ),
+    ));
+    o.push((69, Val::dict(vec![("Names", Val::Array(vec![Val::str("file.txt"), Val::r(70)]))])));
+    o.push((70, Val::dict(vec![("Type", Val::name("Filespec")), ("F", Val::str("file.txt")), ("EF", Val::dict(vec![("F", Val::r(71))]))])));
+    o.push((71, Val::stream(vec![("Type", Val::name("EmbeddedFile")), ("Params", Val::dict(vec![("Size", Val::Int(5)), ("ModDate", Val::str("D:20240101"))]))], b"hello".to_vec())));
+    o.push((72, Val::dict(vec![("Kids", Val::Array(vec![Val::r(73)]))])));
+    o.push((73, Val::dict(vec![("Limits", Val::ints(&[0, 1])), ("Nums", Val::Array(vec![Val::Int(0), Val::dict(vec![("S", Val::name("D"))]), Val::Int(1), Val::dict(vec![("S", Val::name("A")), ("St", Val::Int(5))])]))])));
+    o.push((74, Val::dict(vec![("FT", Val::name("Btn")), ("T", Val::str("kid")), ("Parent", Val::r(32)), ("V", Val::name("Off")), ("DV", Val::Null), ("Kids", Val::Array(vec![]))])));
+    o.push((75, Val::stream(vec![("Type", Val::name("XObject")), ("Subtype", Val::name("Image")), ("Width", Val::Int(2)), ("Height", Val::Int(2)), ("ColorSpace", Val::name("DeviceGray")), ("BitsPerComponent", Val::Int(8))], vec![0, 85, 170, 255])));
+    o
 }
